@@ -88,12 +88,18 @@ def run(tier):
     r = C.tlc("JlsWriterMC", cfgp2, timeout=1800, heap="8g")
     if not ck.add_mc("JlsWriter spd=6 sdf=2 eps=6 sumdf=3", r):
         ck.violation({"where": "model", "config": "JlsWriterMC-b", "invariant": r.violated, "reason": "JlsWriter.tla violates " + str(r.violated)})
+    for df, mx in ((1, 12), (2, 70), (3, 90 if thorough else 40)):
+        cfgt = C.os.path.join(C.scratch(), "JlsTsWriterMC_%d.cfg" % df)
+        open(cfgt, "w").write("SPECIFICATION Spec\nCONSTANTS\n  Df = %d\n  MaxEntries = %d\nINVARIANT Inv\nCHECK_DEADLOCK FALSE\n" % (df, mx))
+        r = C.tlc("JlsTsWriterMC", cfgt, timeout=900, workers=2)
+        if not ck.add_mc("JlsTsWriter decimate factor %d, <= %d entries (annotation / UTC chunk emission: INDEX then its SUMMARY, entries lead to the chunks below, no level over its allocation)" % (df, mx), r):
+            ck.violation({"where": "model", "config": "JlsTsWriterMC df=%d" % df, "invariant": r.violated, "reason": "JlsTsWriter.tla violates " + str(r.violated)})
     vw = C.validate_trace_parallel("JlsWriterTrace", "JlsWriterTrace.cfg", trace, parts=12, timeout=1800)
-    ck.log("tier-B conformance with JlsWriter.tla: %d events, %d file(s) whose FSR chunk sequence differs from the model" % (vw.consumed, len(vw.rejections)))
+    ck.log("tier-B conformance with JlsWriter.tla / JlsTsWriter.tla: %d events, %d file(s) whose FSR or annotation / UTC chunk sequence differs from the model" % (vw.consumed, len(vw.rejections)))
     if vw.rejections:
         ck.cov["design_conformance"] = "drift"
-        print("MODEL-DRIFT property=C05 %d file(s) have an FSR chunk sequence that JlsWriter.tla does not produce for the same calls (first: execution %s line %s)"
-              % (len(vw.rejections), vw.rejections[0][0], vw.rejections[0][1]))
+        print("MODEL-DRIFT property=C05 %d file(s) have a chunk sequence that JlsWriter.tla / JlsTsWriter.tla do not produce for the same calls (first: execution %s line %s: %s)"
+              % (len(vw.rejections), vw.rejections[0][0], vw.rejections[0][1], vw.rejections[0][2]))
     nfiles = sum(1 for l in open(trace) if l.startswith('{"e":"FileEnd"'))
     nchunks = sum(1 for l in open(trace) if l.startswith('{"e":"Chunk"'))
     ck.cov["distinct_nontrivial"] = nfiles
